@@ -103,6 +103,12 @@
 #ifndef VQ_NBALEN
 #define VQ_NBALEN 2
 #endif
+#ifndef VQ_DAMAGE
+#define VQ_DAMAGE 0       /* C04: N > 0 = one symbolic byte at one of N positions (fork) of the page region [4, footer); only memory safety, termination and leaks are judged */
+#endif
+#ifndef VQ_DAMAGE0
+#define VQ_DAMAGE0 0      /* first damaged position, relative to byte 4 */
+#endif
 #ifndef VQ_NEG
 #define VQ_NEG 0
 #endif
@@ -325,7 +331,13 @@ void harness(void) {
     const int col = VQ_EXTRA ? 1 : 0;
     /* ---- levels: symbolic at the positions of VQ_SYMMASK, a fixed consistent pattern elsewhere */
     static uint8_t sdef[NTOT + 1], srep[NTOT + 1];
-    symx_make_symbolic(sdef, NTOT, "def"); symx_make_symbolic(srep, NTOT, "rep");
+#if VQ_DAMAGE
+    /* damaged-file obligations: the content is concrete (only the damaged byte is symbolic) */
+  #define CONTENT(buf, n, name, expr) do { for (size_t q_ = 0; q_ < (size_t)(n); q_++) (buf)[q_] = (uint8_t)(expr); } while (0)
+#else
+  #define CONTENT(buf, n, name, expr) symx_make_symbolic(buf, n, name)
+#endif
+    CONTENT(sdef, NTOT, "def", (q_ % 3 == 1) ? 0 : max_def); CONTENT(srep, NTOT, "rep", (q_ == 0) ? 0 : (q_ % (size_t)(max_rep + 1)));
     int nrows = 0, nvals = 0, g = 0;
     for (int p = 0; p < VQ_NPAGES; p++) {
         page_v0[p] = nvals; page_l0[p] = g; page_nv[p] = 0;
@@ -348,14 +360,14 @@ void harness(void) {
     }
     page_v0[VQ_NPAGES] = nvals; page_l0[VQ_NPAGES] = g;
     /* ---- values */
-    symx_make_symbolic(vb, sizeof vb, "val");
-    symx_make_symbolic(balen, sizeof balen, "balen");
+    CONTENT(vb, sizeof vb, "val", 0x41 + 7 * q_);
+    CONTENT(balen, sizeof balen, "balen", 1 + q_ % 2);
     for (int k = 0; k < nvals; k++) {
         if (k >= VQ_NBALEN) balen[k] = (uint8_t)(1 + k % 2);
         symx_assume(balen[k] <= 2);
     }
 #if DICT
-    symx_make_symbolic(db, sizeof db, "dict"); symx_make_symbolic(ib, sizeof ib, "idx"); symx_make_symbolic(dlen, sizeof dlen, "dictlen");
+    CONTENT(db, sizeof db, "dict", 0x61 + 3 * q_); CONTENT(ib, sizeof ib, "idx", q_ % VQ_ND); CONTENT(dlen, sizeof dlen, "dictlen", 1 + q_ % 2);
     for (int j = 0; j < VQ_ND; j++) { if (j >= VQ_NBALEN) dlen[j] = (uint8_t)(1 + j % 2); symx_assume(dlen[j] <= 2); make_value(db + VSLOT * j, dlen[j], &Dval[j], &Dspan[j]); }
 #endif
     for (int k = 0; k < nvals; k++) {
@@ -437,6 +449,14 @@ void harness(void) {
     /* ---- carquet reads the file (exact-size heap copy; filebuf stays the pristine copy) */
     uint8_t* f = malloc(flen); symx_assume(f != NULL);
     memcpy(f, filebuf, flen);
+#if VQ_DAMAGE
+    {   /* C04 on files with dictionary / mixed pages: an arbitrary byte somewhere in the pages (headers, dictionary, level and index streams) */
+        size_t span = (size_t)LAY.footer_off - 4;
+        size_t dpos = 4 + ((size_t)VQ_DAMAGE0 + (size_t)symx_choice(VQ_DAMAGE, "damaged position")) % span;
+        symx_observe_int(dpos, "damaged offset");
+        symx_make_symbolic(f + dpos, 1, "w");
+    }
+#endif
     carquet_error_t err; memset(&err, 0, sizeof err);
     carquet_reader_options_t ro; carquet_reader_options_init(&ro);
     ro.verify_checksums = true;
@@ -452,7 +472,28 @@ void harness(void) {
     uint8_t* vals = malloc((size_t)(NTOT + 1) * vs); int16_t* defs = malloc((NTOT + 1) * 2); int16_t* reps = malloc((NTOT + 1) * 2);
     symx_assume(vals && defs && reps);
     memset(vals, 0xEE, (size_t)(NTOT + 1) * vs); memset(defs, 0x5A, (NTOT + 1) * 2); memset(reps, 0x5A, (NTOT + 1) * 2);
-#if VQ_NEG
+#if VQ_DAMAGE
+    /* damaged file: any outcome is acceptable except an unsafe access, a hang or a leak (engine checks); results must stay inside the caller's buffers */
+    if (r) {
+        carquet_column_reader_t* cr = carquet_reader_get_column(r, 0, col, &err);
+        if (cr) {
+            int got = 0;
+            for (int call = 0; call < NTOT + 2; call++) {
+                int64_t n = carquet_column_read_batch(cr, vals, NTOT + 1, defs, reps);
+                if (n <= 0) break;
+                SYMX_ASSERT(n <= NTOT + 1, "read_batch never reports more levels than requested");
+                got += (int)n;
+                if (VQ_TYPE == REF_TYPE_BYTE_ARRAY) {   /* returned byte arrays must be readable */
+                    const carquet_byte_array_t* ba = (const carquet_byte_array_t*)vals; volatile uint8_t sink = 0; int k = 0;
+                    for (int i = 0; i < (int)n; i++) { if (max_def && defs[i] != (int16_t)max_def) continue; for (int32_t j = 0; j < ba[k].length && j < 4; j++) sink ^= ba[k].data[j]; k++; }
+                }
+            }
+            (void)got;
+            carquet_column_reader_free(cr);
+        }
+        carquet_reader_close(r);
+    }
+#elif VQ_NEG
     /* features carquet does not implement: an error from open, get_column or read_batch — never data */
     if (r) {
         carquet_column_reader_t* cr = carquet_reader_get_column(r, 0, col, &err);
@@ -538,6 +579,8 @@ void harness(void) {
     carquet_column_reader_free(cr);
     carquet_reader_close(r);
 #endif
+#if !VQ_DAMAGE
     if (om == 0) SYMX_ASSERT(memcmp(f, filebuf, flen) == 0, "the caller's input buffer is byte-identical after reads, column_reader_free and reader_close");
+#endif
     free(vals); free(defs); free(reps); free(f);
 }
